@@ -3,7 +3,7 @@ import random
 
 ID = 'C07'
 LEVEL = 'other'
-TARGETS = []
+TARGETS = ['selfies/bond_constraints.py::set_semantic_constraints', 'selfies/bond_constraints.py::get_bonding_capacity']
 EXPLANATION = (
     "BOUNDED stand-in (not counted as proved) plus every deductive clause listed in coverage.clauses: for each of 12 "
     "accepted tables (presets, rare elements, multi-digit and negative charges, capacity 0 and > 8), switched in "
